@@ -21,6 +21,18 @@ Text    : every request / reply the generators build is also sent in the other S
           (component `jsonspell`); histogram keys `text/<side>/<style>/<is the member name visible in the raw text>`.
           Extracted fact `loadsReturns` (every way out of jsonrpc.loads: `None` for the empty text, `load(jloads(data), config)`
           otherwise, the raw text being read by nothing else).
+Bounds  : descriptors (invalid names, malformed, valid) at the BOUNDARY DEPTHS 0…10, 31, 32, 33, 64, 100, 257 below lists, dicts and fields
+          of valid descriptors (alternating and mixed too) and in WIDE containers (1, 10, 1000 members; first / middle / last; scalar
+          and bean siblings), batches of 1 / 10 / 1000 requests, bodies nested 40 … 900 levels with an invalid name at the bottom, class
+          names of the lengths 7 … 4096 (65536 in the thorough tier) with the bad character first / in the middle / last
+          (`_depth_width`, `_deep_bodies`, `long_names`; histogram keys `bounds/…`, `names/len-…`, `server/…/deep-nesting/…`): every
+          side (direct, loads, reply through a proxy, request body), flag on and off, compared with the model (`rpcload`).
+Chars   : invalid, valid, malformed descriptors and plain values whose strings hold a LONE SURROGATE (written \\udXXX in the text; no UTF-8
+          form), astral characters, NUL, control characters, U+2028, U+FEFF / U+FFFF, through every server-side entry point —
+          dispatcher, CGI handler (bytes on stdout), do_POST over TCP / pooled / Unix sockets — flag on and off (`_entry_text_classes`,
+          histogram keys `text-class/…`) and as replies to every client-side entry point: the request must be ANSWERED (a reply
+          text without UTF-8 form is no answer: monitors `reply-not-encodable`, `entry-raises`, `entry-no-answer`), with -32700
+          whenever the translator rejects it (`rejected-not-32700`).
 Monitor : from the property statement.  Observation of one decoding (`observe`): a process-wide audit hook
           collecting `import` events raised while jsonclass.load is on the stack, a wrapper of builtins.__import__
           recording the *dynamic* imports made by jsonrpclib.jsonclass (`__import__(name, …)` calls — a static
@@ -34,7 +46,8 @@ Monitor : from the property statement.  Observation of one decoding (`observe`):
           * flag on: every import observed is explained by a descriptor of the payload whose class name is
             non-empty and made of [a-zA-Z0-9_.] only (so a descriptor with an invalid name causes none, at any
             depth); a payload whose only descriptor has an invalid name raises TranslationError (when otherwise
-            well-formed) / raises (malformed); whatever the translator rejects is answered by the server with a
+            well-formed) / raises (malformed); a payload that holds such a descriptor among others (`_any_bad`: under
+            lists, dicts, fields of valid descriptors) is never decoded successfully; whatever the translator rejects is answered by the server with a
             single -32700 error object and no registered method runs.
 """
 import builtins
@@ -525,6 +538,147 @@ class PayloadGen(object):
         return v, "/".join(path) or "top"
 
 
+# ---- boundary depths and widths -------------------------------------------------------------------------------------------
+
+DEPTHS = list(range(0, 11)) + [31, 32, 33, 64, 100, 257]  # container levels above the descriptor (the real code recurses: < ~900)
+WIDTHS = [1, 10, 1000]  # members of the container that holds the descriptor
+WRAPS = ["list", "dict", "attr", "alternating", "mixed"]
+NAME_LENGTHS = [7, 8, 63, 64, 65, 255, 256, 257, 1000, 4096]
+
+
+def _bean_fields(pg):
+    """(emitted class name, a field the class takes) of the beans of the environment."""
+    out = []
+    for s in pg.beans:
+        inst = pg.env.cls[s["id"]]()
+        names = [n for n, _x in pg.env.stored(inst) if not n.startswith("__")] or ["extra_attr"]
+        out.append((pg.emit_name(s), names))
+    return out
+
+
+def wrap_at_depth(rng, d, depth, how, fields, width=1, pos=0, bean_siblings=False):
+    """The value d under exactly `depth` levels of lists / dicts / fields of valid descriptors; the container directly above it has
+    `width` members, d being the pos-th."""
+    v = d
+    for level in range(depth):
+        kind = how
+        if how == "alternating":
+            kind = ("list", "dict", "attr")[level % 3]
+        elif how == "mixed":
+            kind = rng.choice(["list", "dict", "attr"])
+        if kind == "attr" and not fields:
+            kind = "dict"
+        n = width if level == 0 else 1
+        i = min(pos, n - 1) if level == 0 else 0
+        if bean_siblings and fields and level == 0:
+            sib = [{"__jsonclass__": [rng.choice(fields)[0], []]} for _ in range(n - 1)]
+        else:
+            sib = list(range(n - 1))
+        if kind == "list":
+            v = sib[:i] + [v] + sib[i:]
+        elif kind == "dict":
+            items = [("k%d" % j, x) for j, x in enumerate(sib)]
+            items.insert(i, ("k", v))
+            v = dict(items)
+        else:
+            name, names = rng.choice(fields)
+            items = [("f%d" % j, x) for j, x in enumerate(sib)]
+            items.insert(i, (rng.choice(names), v))
+            v = dict([("__jsonclass__", [name, []])] + items)
+    return v
+
+
+def _bounded_descriptor(pg, kind):
+    rng = pg.rng
+    if kind == "invalid-name":
+        base = rng.choice(pg.valid_names() + [CANARY + ".Boom", "os.getcwd"])
+        return {"__jsonclass__": [mutate_name(rng, base), rng.choice([[], {}])]}
+    if kind == "malformed":
+        return copy.deepcopy(rng.choice(malformed_descriptors(pg.valid_names())))
+    if kind == "valid-canary":
+        return {"__jsonclass__": [CANARY + ".Nope", []]}
+    if kind == "valid-existing" and pg.beans:
+        return {"__jsonclass__": [pg.emit_name(rng.choice(pg.beans)), []]}
+    return {"__jsonclass__": ["nosuchmod_jrv.Cls", []]}
+
+
+def _side_direct(ctx, env, payload, kind, path, pending):
+    """jsonclass.load called with the payload itself (no text)."""
+    cfg = make_cfg(env, True)
+    o = observe(JC.load, copy.deepcopy(payload), cfg.classes, _payload=payload)
+    case = {"side": "direct", "payload": payload, "flag": True, "kind": kind, "path": path, "classes": "of the environment"}
+    check_imports(ctx, case, o, payload, True, "direct")
+    _check_single_bad(ctx, case, o, payload, "direct")
+    _pend(ctx, pending, env, True, payload, {"result": _expect_from(o, False), "imports": o.calls, "side": "direct"}, case)
+    _count(ctx, case, o, kind, path)
+
+
+def _one_bounded(ctx, env, pg, pending, payload, kind, path, sides, flag=True, where=None):
+    for side in sides:
+        p = copy.deepcopy(payload)
+        if side == "direct":
+            _side_direct(ctx, env, p, kind, path, pending)
+        elif side == "loads":
+            _side_loads(ctx, env, p, kind, path, flag, pending, False, ctx.rng.choice(["plain", "compact", "plain", pick_style(ctx.rng)]))
+        elif side == "client":
+            _side_client(ctx, env, p, kind, path, flag, pending)
+        else:
+            _side_server(ctx, env, pg, p, kind, path, flag, pending, False,
+                         where or ctx.rng.choice(["params-list", "params-dict", "whole", "extra-member", "batch"]))
+        ctx.hist["bounds/%s/%s/%s" % (path, kind, side if flag else side + "-off")] += 1
+
+
+ALL_SIDES = ["direct", "loads", "client", "server"]
+
+
+def _depth_width(ctx, env, pg, pending):
+    """Descriptors at the boundary depths (0…10, 31, 32, 33, 64, 100, 257 container levels above them: lists, dicts, fields of valid
+    descriptors, alternating, mixed) and in wide containers (1, 10, 1000 members; first, middle, last; scalar and bean siblings),
+    batches of 1 / 10 / 1000 requests: invalid names and malformed shapes (must be rejected wherever they sit), valid ones (the
+    model says what comes out), flag on and off — decoded directly, as a text, as a reply, as a request body."""
+    rng = ctx.rng
+    fields = _bean_fields(pg)
+    for depth in DEPTHS:
+        for how in WRAPS:
+            path = "depth-%d/%s" % (depth, how)
+            inv = wrap_at_depth(rng, _bounded_descriptor(pg, "invalid-name"), depth, how, fields)
+            _one_bounded(ctx, env, pg, pending, inv, "invalid-name", path, ALL_SIDES)
+            _one_bounded(ctx, env, pg, pending, inv, "invalid-name", path, [rng.choice(ALL_SIDES[1:])], flag=False)
+            for kind in ("malformed", "valid-canary", "valid-existing"):
+                v = wrap_at_depth(rng, _bounded_descriptor(pg, kind), depth, how, fields)
+                _one_bounded(ctx, env, pg, pending, v, kind, path, [rng.choice(ALL_SIDES)])
+    for width in WIDTHS:
+        for how in ("list", "dict", "attr"):
+            for pos in sorted(set([0, width // 2, width - 1])):
+                for depth in (1, 3, 34):
+                    path = "width-%d/%s/at-%d/depth-%d" % (width, how, pos, depth)
+                    bean_sib = width == 10 and rng.random() < 0.5
+                    inv = wrap_at_depth(rng, _bounded_descriptor(pg, "invalid-name"), depth, how, fields, width, pos, bean_sib)
+                    _one_bounded(ctx, env, pg, pending, inv, "invalid-name", path, ALL_SIDES if width < 1000 else [rng.choice(ALL_SIDES)])
+                    kind = rng.choice(["malformed", "valid-canary", "valid-existing"])
+                    v = wrap_at_depth(rng, _bounded_descriptor(pg, kind), depth, how, fields, width, pos, bean_sib)
+                    _one_bounded(ctx, env, pg, pending, v, kind, path, [rng.choice(ALL_SIDES)], flag=rng.random() < 0.8)
+        # batches of `width` requests, the descriptor in one of them
+        for pos in sorted(set([0, width // 2, width - 1])):
+            for kind in ("invalid-name", "malformed", "valid-existing"):
+                v = wrap_at_depth(rng, _bounded_descriptor(pg, kind), rng.choice([0, 1, 33]), "list", fields)
+                _one_bounded(ctx, env, pg, pending, v, kind, "batch-%d/at-%d" % (width, pos), ["server"],
+                             flag=kind != "valid-existing" or rng.random() < 0.5, where="batch:%d:%d" % (width, pos))
+
+
+def long_names(rng, thorough):
+    """Class names of the boundary lengths: all valid, or with one character outside [a-zA-Z0-9_.] first / in the middle / last."""
+    out = []
+    for n in NAME_LENGTHS + ([65536] if thorough else []):
+        base = "".join(rng.choice("abzAZ09_") for _ in range(n))
+        base = base[:n // 2] + "." + base[n // 2 + 1:]
+        out.append((base, "len-%d/valid" % n))
+        for pos, label in ((0, "first"), (n // 2, "middle"), (n - 1, "last")):
+            ch = rng.choice(LOOKALIKES + ALPHABET[5:])
+            out.append((base[:pos] + ch + base[pos + 1:], "len-%d/bad-%s" % (n, label)))
+    return out
+
+
 # ---- the run -------------------------------------------------------------------------------------------------------
 
 def make_cfg(env, flag, version=2.0):
@@ -584,7 +738,9 @@ def run(ctx):
                 "type) x descriptor payloads x 2.0-form and 1.0-form requests; "
                 "payloads = descriptors (existing / missing / canary modules, names mutated with one bad character or look-alike, "
                 "random Unicode, empty, every malformed shape: each JSON type, lists of length 0-3) at depth 0-3 of lists, dicts and "
-                "attributes of valid descriptors, with siblings; decoded directly (jsonrpclib.loads), as a reply through a real "
+                "attributes of valid descriptors, with siblings, and at the boundary depths 0-10, 31, 32, 33, 64, 100, 257 / in containers "
+                "and batches of 1, 10, 1000 members; strings with lone surrogates, astral, NUL and control characters through the "
+                "byte-level server paths (CGI, do_POST over TCP / pooled / Unix sockets); decoded directly (jsonrpclib.loads), as a reply through a real "
                 "ServerProxy (LoopTransport) and as a request body through _marshaled_dispatch; use_jsonclass on and off; plus the "
                 "class names of length <= 3 over the alphabet a Z 0 _ . - space newline e-acute fullwidth-a (exhaustive in the "
                 "thorough tier); distinct_nontrivial = distinct (descriptor kind, nesting path, side, flag, outcome)")
@@ -593,6 +749,7 @@ def run(ctx):
     pending = []  # (model line, expectation, case)
     try:
         _names_stream(ctx, pending)
+        _entry_text_classes(ctx)  # first: what it finds is replayed without the generated classes of an environment
         n_envs = ctx.budget(14, 24)
         per_env = ctx.budget(260, 500)
         for e in range(n_envs):
@@ -601,6 +758,8 @@ def run(ctx):
             env = jcenv.Env(specs).install()
             try:
                 _run_env(ctx, env, per_env, pending)
+                if e < ctx.budget(2, 6):
+                    _depth_width(ctx, env, PayloadGen(ctx.rng, env), pending)
             finally:
                 env.uninstall()
         _dump_gate(ctx)
@@ -678,7 +837,11 @@ def _names_stream(ctx, pending):
     names = short_names(ctx.thorough, rng)
     names += [random_unicode(rng) for _ in range(ctx.budget(150, 1500))]
     names += [mutate_name(rng, b) for b in [CANARY + ".Boom", "os.getcwd", "decimal.Decimal"] for _ in range(ctx.budget(25, 200))]
+    lengths = dict(long_names(rng, ctx.thorough))
+    names += list(lengths)
     for s in names:
+        if s in lengths:
+            ctx.hist["names/" + lengths[s]] += 1
         for params in ([], {}):
             payload = {"__jsonclass__": [s, params]}
             if ctx.rng.random() < 0.3:
@@ -742,10 +905,41 @@ def _single_bad(payload):
     return ds[0] if len(ds) == 1 and shape(ds[0]) != "valid" else None
 
 
+def reached_descriptors(v, acc=None):
+    """Every dict with a "__jsonclass__" member the translator comes to when nothing before it fails: at any depth of lists, of
+    dict values and of the other members of a descriptor (the fields of the object) — not inside a "__jsonclass__" member (the
+    class name and the constructor arguments are handed over as they are)."""
+    acc = [] if acc is None else acc
+    if isinstance(v, dict):
+        if "__jsonclass__" in v:
+            acc.append(v)
+        for k, x in v.items():
+            if k != "__jsonclass__":
+                reached_descriptors(x, acc)
+    elif isinstance(v, list):
+        for x in v:
+            reached_descriptors(x, acc)
+    return acc
+
+
+def _any_bad(payload):
+    """A descriptor with an invalid name / a malformed one somewhere in the payload (under any number of lists, dicts and fields of
+    valid descriptors), or None: decoding such a payload cannot succeed — either something before it fails, or it is rejected."""
+    for d in reached_descriptors(payload):
+        if shape(d) != "valid":
+            return d
+    return None
+
+
 def _check_single_bad(ctx, case, o, payload, where):
-    """A payload whose only descriptor is invalid / malformed must be rejected (TranslationError when well-formed)."""
+    """A payload whose only descriptor is invalid / malformed must be rejected (TranslationError when well-formed); a payload with
+    such a descriptor among others must be rejected too (by whatever fails first)."""
     d = _single_bad(payload)
     if d is None:
+        d = _any_bad(payload)
+        if d is not None and o.kind != "err":
+            ctx.violate(case, "%s: the payload holds the %s descriptor %r (among others) but decoding succeeded: %.300r"
+                        % (where, shape(d), d["__jsonclass__"], o.value), key="bad-descriptor-accepted-nested:" + shape(d))
         return
     if o.kind != "err":
         ctx.violate(case, "%s: the payload's only descriptor %r is %s but decoding succeeded: %r"
@@ -833,6 +1027,10 @@ def _side_client(ctx, env, payload, kind, path, flag, pending, mo=False):
         elif d is not None and shape(d) == "invalid-name" and type(o.value).__name__ != "TranslationError":
             ctx.violate(case, "client: invalid class name %r rejected with %s" % (d["__jsonclass__"][0], type(o.value).__name__),
                         key="invalid-name-wrong-error")
+        elif d is None and _any_bad(payload) is not None and not (o.kind == "err" and type(o.value).__name__ not in ("AppError", "ProtocolError")):
+            d = _any_bad(payload)
+            ctx.violate(case, "client: the reply holds the %s descriptor %r (among others) but the call gave %s %.300r"
+                        % (shape(d), d["__jsonclass__"], o.kind, o.value), key="bad-descriptor-accepted-nested:client")
     # model: the translator runs on the whole reply document
     if o.kind == "err" and type(o.value).__name__ in ("AppError", "ProtocolError"):
         exp = "ok"  # decoding succeeded; the error is the reply's
@@ -842,8 +1040,9 @@ def _side_client(ctx, env, payload, kind, path, flag, pending, mo=False):
     _count(ctx, case, o, kind, path)
 
 
-def _side_server(ctx, env, pg, payload, kind, path, flag, pending, mo=False):
-    """The payload inside a request body handled by _marshaled_dispatch."""
+def _side_server(ctx, env, pg, payload, kind, path, flag, pending, mo=False, where=None):
+    """The payload inside a request body handled by _marshaled_dispatch (`where`: its place in the request document; `batch:<n>:<i>`
+    = the i-th of a batch of n requests)."""
     rng = ctx.rng
     cfg = make_cfg(env, flag)
     disp = SimpleJSONRPCDispatcher(config=cfg)
@@ -854,11 +1053,14 @@ def _side_server(ctx, env, pg, payload, kind, path, flag, pending, mo=False):
         return [list(args), kwargs] if kwargs else list(args)
 
     disp.register_function(echo, "echo")
-    where = rng.choice(["params-list", "params-list", "params-dict", "id", "whole", "batch", "method", "extra-member"])
+    where = where or rng.choice(["params-list", "params-list", "params-dict", "id", "whole", "batch", "method", "extra-member"])
 
     def envelope(x):
         req = {"jsonrpc": "2.0", "method": "echo", "id": 7}
-        if where == "params-list":
+        if where.startswith("batch:"):
+            n, i = [int(t) for t in where.split(":")[1:]]
+            req = [{"jsonrpc": "2.0", "method": "echo", "id": j, "params": [x] if j == i else [j]} for j in range(n)]
+        elif where == "params-list":
             req["params"] = [x, 1]
         elif where == "params-dict":
             req["params"] = {"p": x}
@@ -904,10 +1106,18 @@ def _side_server(ctx, env, pg, payload, kind, path, flag, pending, mo=False):
     elif is_32700:
         ctx.violate(case, "the server answered -32700 to a payload the translator accepts (use_jsonclass=%s): %r" % (flag, o.value),
                     key="unexpected-32700")
-    d = _single_bad(req) if flag else None
-    if d is not None and not is_32700:
-        ctx.violate(case, "server: the body's only descriptor %r is %s but the reply is %r" % (d["__jsonclass__"], shape(d), o.value),
-                    key="bad-descriptor-accepted:server")
+    d = (_single_bad(req) or _any_bad(req)) if flag else None
+    if d is not None and (not is_32700 or invoked):
+        ctx.violate(case, "server: the body holds the %s descriptor %r but the reply is %.300r and %d method call(s) were made"
+                    % (shape(d), d["__jsonclass__"], o.value, len(invoked)), key="bad-descriptor-accepted:server")
+    if o.kind == "ok" and isinstance(o.value, str):
+        # what the server answers travels as UTF-8 on every transport of the package (utils.to_bytes / str.encode)
+        try:
+            o.value.encode("utf-8")
+        except UnicodeEncodeError as ex:
+            ctx.violate(case, "server: the reply %.300r cannot be sent (no UTF-8 form: %s), so the request gets no answer%s"
+                        % (o.value, ex, " — the translator rejects it: a -32700 answer is due" if rejected else ""),
+                        key="reply-not-encodable")
     if not flag and where in ("params-list", "params-dict"):
         # nothing is interpreted: the method receives exactly the JSON parameters
         payload = json.loads(json.dumps(payload))  # as JSON carries it (a surrogate pair becomes one character)
@@ -974,14 +1184,25 @@ def _dump_gate(ctx):
         ctx.count(kind="dump/proxy/%s/%s" % ("on" if flag else "off", k))
 
 
+def _deep_bodies():
+    """(label, body): nestings no decoder survives, and — `translator-<n>` — nestings of n lists / dicts the real code does get
+    through (or not: a RecursionError of the translator is a rejection like any other), with an invalid class name at the bottom."""
+    d = json.dumps({"__jsonclass__": [CANARY + ".Boom x", []]})
+    out = [("json-decoder", "[" * 100000 + "]" * 100000),
+           ("translator", "[" * 3000 + d + "]" * 3000),
+           ("translator-dicts", '{"a":' * 3000 + "1" + "}" * 3000)]
+    for n in (40, 300, 500, 700, 900):
+        out.append(("translator-%d" % n, "[" * n + d + "]" * n))
+        out.append(("translator-dicts-%d" % n, '{"a":' * n + d + "}" * n))
+        out.append(("translator-params-%d" % n, '{"jsonrpc":"2.0","id":1,"method":"echo","params":[' + '{"a":[' * (n // 2) + d
+                    + "]}" * (n // 2) + "]}"))
+    return out
+
+
 def _deep_nesting(ctx, env):
     """Bodies nested so deeply that the JSON decoder or the translator runs out of stack (RecursionError): the server
     still answers -32700 (any failure of `loads` does) and no method runs."""
-    d = {"__jsonclass__": [CANARY + ".Boom x", []]}
-    bodies = [("json-decoder", "[" * 100000 + "]" * 100000),
-              ("translator", "[" * 3000 + json.dumps(d) + "]" * 3000),
-              ("translator-dicts", '{"a":' * 3000 + "1" + "}" * 3000)]
-    for label, body in bodies:
+    for label, body in _deep_bodies():
         for flag in (True, False):
             cfg = make_cfg(env, flag)
             disp = SimpleJSONRPCDispatcher(config=cfg)
@@ -990,7 +1211,7 @@ def _deep_nesting(ctx, env):
             o = observe(disp._marshaled_dispatch, body, _payload=None)
             case = {"side": "server", "body_py": "%r * %d + ..." % (body[:6], 1), "deep": label, "flag": flag,
                     "kind": "deep-nesting", "path": label}
-            rejected = True
+            rejected = True  # flag on: the decoder fails, the stack runs out, or the invalid class name at the bottom is refused
             if not flag and label != "json-decoder":
                 # with the flag off only the JSON decoder sees the nesting
                 rejected = impl.outcome(json.loads, body)[0] == "err"
@@ -1228,13 +1449,7 @@ def _entry_payloads(rng):
     return out
 
 
-def entry_server_exchange(kind, flag, variant, form, payload, style="plain", seed=0, ctx=None):
-    """One request through the public path of a server-side entry point built with a non-default configuration; the body is
-    spelt in `style` (harness/jsonspell.py; `seed` makes the spelling reproducible).
-    -> (observation, the request as the body denotes it, reply document | None, what the registered methods received, payload)"""
-    cfg = _entry_cfg(flag, variant)
-    received = []
-
+def _entry_methods(received):
     def echo(*args, **kwargs):
         received.append([list(args), kwargs])
         return list(args)
@@ -1242,6 +1457,21 @@ def entry_server_exchange(kind, flag, variant, form, payload, style="plain", see
     def bean():
         received.append([[], {}])
         return _gate_values()["bean"]
+
+    return {"echo": echo, "bean": bean}
+
+
+def entry_server_exchange(kind, flag, variant, form, payload, style="plain", seed=0, ctx=None, shared=None):
+    """One request through the public path of a server-side entry point built with a non-default configuration; the body is
+    spelt in `style` (harness/jsonspell.py; `seed` makes the spelling reproducible).
+    -> (observation, the request as the body denotes it, reply document | None, what the registered methods received, payload)"""
+    cfg = _entry_cfg(flag, variant)
+    if shared is not None:
+        entry, received = shared  # an entry point that stays up for a series of requests (same kind, flag and variant)
+        del received[:]
+    else:
+        received = []
+        entry = None
 
     meth = "bean" if form.startswith("bean") else "echo"
 
@@ -1255,11 +1485,13 @@ def entry_server_exchange(kind, flag, variant, form, payload, style="plain", see
 
     body, payload = spelled(ctx, "entry:" + kind, style, payload, envelope, seed=seed)
     req = json.loads(body)
-    entry = jcentries.ServerEntry(kind, cfg, {"echo": echo, "bean": bean})
+    if entry is None:
+        entry = jcentries.ServerEntry(kind, cfg, _entry_methods(received))
     try:
         o = observe(entry.send, body, _payload=req)
     finally:
-        entry.close()
+        if shared is None:
+            entry.close()
     reply = None
     if o.kind == "ok" and o.value:
         try:
@@ -1289,6 +1521,22 @@ def entry_server_verdicts(kind, flag, form, payload, o, req, reply, received):
                          % (where, form, text[:300])))
         return hits
     echoes = [r for r in received if r[0] and r[0] != [1]]
+    if isinstance(o.value, str):
+        try:
+            o.value.encode("utf-8")  # what every transport of the package does with the reply text
+        except UnicodeEncodeError as ex:
+            hits.append(("reply-not-encodable:" + kind, "%s (use_jsonclass=%s): the reply %.300r cannot be sent (no UTF-8 form: %s), so "
+                         "the request gets no answer" % (where, flag, o.value, ex)))
+    if reply is None:
+        hits.append(("entry-no-answer:" + kind, "%s (use_jsonclass=%s) answered the request with %.200r, which is no JSON-RPC document"
+                     % (where, flag, o.value)))
+    if flag:
+        # whatever the translator rejects (asked separately: the entry's class table is empty) is answered with -32700, no method runs
+        k2, r2 = impl.outcome(JC.load, copy.deepcopy(req), None)
+        sys.modules.pop(CANARY, None)
+        if k2 == "err" and (not is_32700 or received):
+            hits.append(("rejected-not-32700:" + kind, "%s built with use_jsonclass=True: the translator rejects the body (%s) but the "
+                         "reply is %.300r and the methods received %r" % (where, type(r2).__name__, o.value, received)))
     if not flag:
         # nothing is interpreted: the method receives the JSON parameter, the reply carries it back verbatim
         if len(echoes) != 1 or not strict_equal(echoes[0], [[payload], {}]):
@@ -1298,9 +1546,9 @@ def entry_server_verdicts(kind, flag, form, payload, o, req, reply, received):
             hits.append(("off-reply-not-verbatim:" + kind, "%s built with use_jsonclass=False: the reply %s does not carry the "
                          "parameter %r back verbatim" % (where, str(o.value)[:300], payload)))
     else:
-        d = _single_bad(req)
+        d = _single_bad(req) or _any_bad(req)
         if d is not None and (not is_32700 or received):
-            hits.append(("bad-descriptor-accepted:" + kind, "%s built with use_jsonclass=True: the body's only descriptor %r is %s "
+            hits.append(("bad-descriptor-accepted:" + kind, "%s built with use_jsonclass=True: the body's descriptor %r is %s "
                          "but the reply is %s and the methods received %r"
                          % (where, d["__jsonclass__"], shape(d), str(o.value)[:300], received)))
     return hits
@@ -1316,7 +1564,7 @@ def entry_client_exchange(kind, flag, variant, mode, rkind, style="plain", seed=
     import random
     J = impl.jsonrpclib.jsonrpc
     cfg = _entry_cfg(flag, variant)
-    vals = dict(_gate_values(), invalid=ENTRY_REPLY_INVALID)
+    vals = _client_vals()
     replies = []
     srng = random.Random(seed)
 
@@ -1367,7 +1615,7 @@ def entry_client_exchange(kind, flag, variant, mode, rkind, style="plain", seed=
 
 def entry_client_verdicts(kind, flag, mode, rkind, o, sent, results, replies):
     hits = []
-    vals = dict(_gate_values(), invalid=ENTRY_REPLY_INVALID)
+    vals = _client_vals()
     where = "entry:" + kind
     # the results the (last) reply text denotes — what a repeated member name leaves is the decoder's business
     want = []
@@ -1403,17 +1651,72 @@ def entry_client_verdicts(kind, flag, mode, rkind, o, sent, results, replies):
         if "constructed" not in o.canary:
             hits.append(("on-client-not-translated:" + kind, "%s built with use_jsonclass=True: the %s call gave %s %r and the "
                          "canary saw %r" % (where, mode, o.kind, o.value, o.canary)))
-    elif rkind == "invalid" and mode != "notify":
+    elif rkind.startswith("invalid") and mode != "notify":
         # the flag is on: a reply whose descriptor has an invalid class name is rejected with TranslationError
         if not (o.kind == "err" and type(o.value).__name__ == "TranslationError"):
             hits.append(("bad-descriptor-accepted:" + kind, "%s built with use_jsonclass=True: the reply %s carries a descriptor with "
                          "the invalid class name %r, yet the %s call gave %s %r"
-                         % (where, (replies or ["?"])[-1][:300], ENTRY_REPLY_INVALID["__jsonclass__"][0], mode, o.kind, o.value)))
+                         % (where, (replies or ["?"])[-1][:300], descriptors(vals[rkind])[0]["__jsonclass__"][0], mode, o.kind, o.value)))
     return hits
 
 
-def _entry_server_case(ctx, kind, flag, variant, form, pname, payload, style, seed):
-    o, req, reply, received, denoted = entry_server_exchange(kind, flag, variant, form, payload, style, seed, ctx)
+# ---- the characters a JSON text can denote, through the byte-level paths ------------------------------------------------------------
+
+TEXT_CLASSES = [("lone-high-surrogate", "\ud800"), ("lone-low-surrogate", "\udc80"), ("surrogates-reversed", "\udc00\ud800"),
+                ("astral", "\U0001f600"), ("astral-max", "\U0010ffff"), ("nul", "\x00"), ("control", "\x01\x1f"), ("del-c1", "\x7f\x85"),
+                ("line-separator", "\u2028"), ("bom-nonchar", "\ufeff\uffff"), ("latin-1", "\xe9\xff")]
+
+
+def _text_payloads():
+    """(character class, kind, payload): descriptors — invalid names, valid ones, malformed — and plain values whose strings hold a
+    lone surrogate (JSON writes it \\udXXX; it has no UTF-8 form), astral characters, NUL, control characters, U+2028, U+FEFF/U+FFFF."""
+    _gate_values()  # defines GATE_MOD.GateBean
+    out = []
+    for label, ch in TEXT_CLASSES:
+        out.append((label, "invalid-name", {"__jsonclass__": ["os.path" + ch, []]}))
+        out.append((label, "invalid-name-nested", {"k": [{"__jsonclass__": [ch, {}]}]}))
+        out.append((label, "invalid-name-field", {"__jsonclass__": [ch + ".Bean", []], ch: ch}))
+        out.append((label, "valid-existing", {"__jsonclass__": [GATE_MOD + ".GateBean", []], "a": ch, "b": [ch + "x"]}))
+        out.append((label, "valid-missing", {"__jsonclass__": ["nosuchmod_jrv.Cls", [ch]], "t": ch}))
+        out.append((label, "malformed", {"__jsonclass__": [ch]}))
+        out.append((label, "no-descriptor", [ch, {ch: "x" + ch}]))
+    return out
+
+
+def _entry_text_classes(ctx):
+    """Every server-side entry point — the dispatcher, the CGI handler (bytes written to stdout), do_POST of the TCP / pooled / Unix
+    socket servers over a real socket — x flag x the payloads of _text_payloads: the request must be ANSWERED (a reply that cannot
+    be encoded is no answer), with -32700 when the translator rejects it."""
+    rng = ctx.rng
+    payloads = _text_payloads()
+    for kind in jcentries.SERVER_ENTRIES:
+        for flag in (False, True):
+            variant = rng.randrange(3)
+            received = []
+            entry = jcentries.ServerEntry(kind, _entry_cfg(flag, variant), _entry_methods(received))
+            try:
+                for label, pname, payload in payloads:
+                    form = rng.choice(["echo", "echo", "echo-batch"] + (["echo-1.0-form"] if variant != 2 else []))
+                    style = rng.choice(["plain", "plain", "escape-class-names", "raw-unicode", "mixed"])
+                    _entry_server_case(ctx, kind, flag, variant, form, pname + "/" + label, copy.deepcopy(payload), style,
+                                       rng.randrange(1 << 30), shared=(entry, received))
+                    ctx.hist["text-class/%s/%s/%s/%s" % ("socket" if kind in jcentries.SOCKET else kind.split("-")[0], label, pname,
+                                                       "on" if flag else "off")] += 1
+            finally:
+                entry.close()
+
+
+def _client_vals():
+    """The values a peer answers with (entry_client_exchange): _gate_values() and descriptors with an invalid class name — ASCII, with a
+    lone surrogate, with NUL / control characters, with an astral character under a list."""
+    return dict(_gate_values(), **{"invalid": ENTRY_REPLY_INVALID,
+                                   "invalid-surrogate": {"__jsonclass__": ["os.path\udc80", []], "k": "\ud800"},
+                                   "invalid-control": {"__jsonclass__": ["\x00\x1f", {}]},
+                                   "invalid-astral": {"k": [{"__jsonclass__": ["\U0001f600.Bean", []], "s": "\U0010ffff"}]}})
+
+
+def _entry_server_case(ctx, kind, flag, variant, form, pname, payload, style, seed, shared=None):
+    o, req, reply, received, denoted = entry_server_exchange(kind, flag, variant, form, payload, style, seed, ctx, shared)
     case = {"side": "entry-server", "entry": kind, "flag": flag, "variant": variant, "form": form,
             "payload": payload, "kind": pname, "path": form, "style": style, "spell_seed": seed}
     check_imports(ctx, case, o, req, flag, "entry:" + kind, new_modules=kind in jcentries.IN_PROCESS)
@@ -1453,12 +1756,14 @@ def _entry_points(ctx, only=None):
         for flag in (False, True):
             n = 0
             for mode in ("call", "keyword", "notify", "multicall"):
-                for rkind in ("jcdict", "canary", "invalid"):
+                for rkind in ("jcdict", "canary", "invalid", "invalid-surrogate", "invalid-control", "invalid-astral"):
+                    if rkind.count("-") and mode not in ("call", "multicall"):
+                        continue
                     variant = n % 3
                     n += 1
                     # the reply in the spelling json.dumps writes and in another one RFC 8259 allows
                     for style in ("plain", rng.choice(SPELL_STYLES)):
-                        if rkind == "invalid" and mode == "notify":
+                        if rkind.startswith("invalid") and mode == "notify":
                             continue
                         seed = rng.randrange(1 << 30)
                         o, sent, results, replies = entry_client_exchange(kind, flag, variant, mode, rkind, style, seed, ctx)
@@ -1573,6 +1878,8 @@ def replay(payload):
                      str(o.value)[:500], received))
             print("imports by the translator:", o.calls, "canary:", o.canary or "untouched")
             hits = entry_server_verdicts(case["entry"], flag, case["form"], case["payload"], o, req, reply, received)
+            if o.kind == "err":
+                print("the request got no answer: %s: %s" % (type(o.value).__name__, o.value))
             allowed = allowed_imports(req) if flag else set()
             if [m for m in o.calls + o.events if m not in allowed] or (o.canary and CANARY not in allowed):
                 hits.append(("import-not-allowed", "imports %r, canary %r" % (o.calls, o.canary)))
@@ -1623,13 +1930,14 @@ def replay(payload):
             env = jcenv.Env([dict(jcenv.DEC_SPEC)])
             o = observe(JC.load, copy.deepcopy(doc), None, _payload=doc)
         elif side == "server" and case.get("deep"):
-            bodies = {"json-decoder": "[" * 100000 + "]" * 100000,
-                      "translator": "[" * 3000 + json.dumps({"__jsonclass__": [CANARY + ".Boom x", []]}) + "]" * 3000,
-                      "translator-dicts": '{"a":' * 3000 + "1" + "}" * 3000}
+            bodies = dict(_deep_bodies())
             disp = SimpleJSONRPCDispatcher(config=cfg)
+            invoked = []
+            disp.register_function(lambda *a, **k: invoked.append(1) or 1, "echo")
+            print("body: %.80s… (%d characters, %s)" % (bodies[case["deep"]], len(bodies[case["deep"]]), case["deep"]))
             o = observe(disp._marshaled_dispatch, bodies[case["deep"]], _payload=None)
-            print("outcome:", o.kind, repr(o.value)[:300])
-            if o.kind == "err" or "-32700" not in str(o.value):
+            print("outcome:", o.kind, repr(o.value)[:300], "method calls:", len(invoked))
+            if o.kind == "err" or "-32700" not in str(o.value) or invoked:
                 print("VIOLATION reproduced")
                 return 1
             print("no violation")
@@ -1660,6 +1968,21 @@ def replay(payload):
         if not flag and side in ("loads",) and not (o.kind == "ok" and strict_equal(o.value, doc)):
             hit = True
         d = _single_bad(doc) if flag else None
+        nested_bad = _any_bad(doc) if flag and d is None and side != "direct-shapes" else None
+        if nested_bad is not None:
+            print("the payload holds the %s descriptor %r" % (shape(nested_bad), nested_bad["__jsonclass__"]))
+            if side in ("direct", "loads") and o.kind != "err":
+                hit = True
+            if side == "server" and ("-32700" not in str(o.value) or invoked):
+                hit = True
+            if side == "client" and not (o.kind == "err" and type(o.value).__name__ not in ("AppError", "ProtocolError")):
+                hit = True
+        if side == "server" and o.kind == "ok" and isinstance(o.value, str):
+            try:
+                o.value.encode("utf-8")
+            except UnicodeEncodeError as ex:
+                print("the reply cannot be sent: it has no UTF-8 form (%s)" % ex)
+                hit = True
         if d is not None and side in ("direct", "loads") and not (o.kind == "err" and (shape(d) != "invalid-name" or
                                                                                       type(o.value).__name__ == "TranslationError")):
             hit = True
